@@ -29,6 +29,13 @@
 (* 6. What an integrand returns is broadcast against the abscissa grid (RetMap); how *)
 (*    end points, tabulated data and returned values are represented (container,     *)
 (*    element type, byte order, strides) does not matter (RepMayReject).             *)
+(* 7. Scale: the tensor-product sum is additive over any partition of the grid rows   *)
+(*    into blocks and, for a separable integrand p(x) q(y), the product of the two    *)
+(*    1-d sums (TensorSum laws, checked by TLC on rational rules); a grid of millions *)
+(*    of points is judged through the exact product of moments (ScaleFailing).        *)
+(* 8. Threads: calls on one module-level function / one shared object from several    *)
+(*    threads, interleaved at the calls' atomic steps, each return the sequential     *)
+(*    answer (ThrSucc).                                                               *)
 EXTENDS VU
 
 QNone == 0                      \* Python None for an npts argument
@@ -317,6 +324,60 @@ TensorFailing(t) ==
     ELSE (IF t.npts = t.nx * t.ny /\ t.ndx = t.nx /\ t.ndy = t.ny /\ t.full THEN {} ELSE {"tensor_grid"}) \cup
          (IF t.rank1 THEN {} ELSE {"product_weights"}) \cup
          (IF AllEq(t.lin, TRUE) THEN {} ELSE {"weighted_sum"})
+
+\* ---- scale: blockwise evaluation, separable integrands ----------------------------------------
+\* tensor-product sum of f over the grid of two rational rules (rows = y nodes)
+TensorRows(rx, ry, f(_, _), rows) ==
+    RSum([q \in 1..Len(rows) |-> RSum([i \in 1..Len(rx) |-> RMul(RMul(rx[i].w, ry[rows[q]].w), f(rx[i].x, ry[rows[q]].x))])])
+TensorSum(rx, ry, f(_, _)) == TensorRows(rx, ry, f, [j \in 1..Len(ry) |-> j])
+\* rows (ascending) handed to the integrand in block b of nb by a loop over blocks of rows
+\*   "ceil"  nrow = ceil(ny / nb), the last block is shorter       "floor"  nrow = ny \div nb, ny % nb rows are left over
+BlockRows(ny, nb, variant, b) ==
+    LET nrow == IF variant = "floor" THEN ny \div nb ELSE (ny + nb - 1) \div nb
+    IN VSortSet({r \in 1..ny : (b - 1) * nrow < r /\ r <= b * nrow})
+BlockCovers(ny, nb, variant) == \A r \in 1..ny : Cardinality({b \in 1..nb : r \in VRange(BlockRows(ny, nb, variant, b))}) = 1
+
+(* r = [nx, ny, dj, dk : the integrand is x^dj y^dk, ax, bx, ay, by : integer end points, err, finite,        *)
+(*      npts : number of points the integrand was handed in all its calls, ndx, ndy : number of distinct  *)
+(*      x / y among them, exact : rational | QOff (result projected onto the exact integral under the    *)
+(*      property's tolerance), prod : BOOLEAN (for separable integrands g(x) h(y), polynomial or not, the *)
+(*      result is the product of the two 1-d integrators' results, to rounding)]                          *)
+ScaleFailing(r) ==
+    IF r.err # "none" THEN {"unexpected_error"}
+    ELSE IF ~r.finite THEN {"nonfinite"}
+    ELSE (IF r.npts >= r.nx * r.ny /\ r.ndx = r.nx /\ r.ndy = r.ny THEN {} ELSE {"tensor_grid"}) \cup
+         (IF (r.dj <= 2 * r.nx - 1 /\ r.dk <= 2 * r.ny - 1) => r.exact = RMul(Moment(r.ax, r.bx, r.dj), Moment(r.ay, r.by, r.dk))
+          THEN {} ELSE {"separable_exact"}) \cup
+         (IF r.prod THEN {} ELSE {"product_of_marginals"})
+
+\* ---- threads ------------------------------------------------------------------------------------
+(* A thread history: events [op |-> "start", t, kind, arg] (thread t begins a call), [op |-> "finish", t,  *)
+(* err, ok] (its call returns; ok = the point counts e for which the result is the one a fresh QGauss(e)  *)
+(* returns sequentially).  Calls of different threads overlap arbitrarily.  Every call with an explicit   *)
+(* npts returns that rule's sum whatever the other threads do; with npts omitted (shared object) the      *)
+(* count is the constructor's or one that a call begun before its return made current.                    *)
+ThrIdle == 0 - 1
+ThrNew(ctor) == [ctor |-> ctor, args |-> {}, open |-> [t \in 1..4 |-> ThrIdle]]
+ThrAllowed(s, a) == IF a # QNone THEN {a} ELSE ({s.ctor} \cup s.args) \ {QNone}
+ThrSucc(s, ev) ==
+    IF ev.op = "start" THEN (IF s.open[ev.t] # ThrIdle THEN {}
+                             ELSE {[s EXCEPT !.open[ev.t] = ev.arg, !.args = @ \cup ({ev.arg} \ {QNone})]})
+    ELSE LET a == s.open[ev.t] IN
+         IF a = ThrIdle THEN {}
+         ELSE IF ThrAllowed(s, a) = {} \/ (ev.err = "none" /\ ThrAllowed(s, a) \cap VRange(ev.ok) # {})
+              THEN {[s EXCEPT !.open[ev.t] = ThrIdle]} ELSE {}
+ThrClause(s, ev) ==
+    IF ev.op = "start" \/ s.open[ev.t] = ThrIdle THEN "malformed_trace"
+    ELSE IF ev.err # "none" THEN "unexpected_error" ELSE "not_the_sequential_result"
+
+(* implementation-shaped model: m = [npts, rulefor] is the state of the object the calls share; a call is *)
+(* two atomic steps, configure (setup) and use.  variants:                                                *)
+(*   "private"  every call builds its own object (module-level qgauss())                                  *)
+(*   "snap"     shared object, setup() hands the rule of the call back in one piece                       *)
+(*   "late"     shared object, the rule is read from the object again after setup() returned              *)
+ThrMechStart(m, arg, variant) == IF variant = "private" THEN m ELSE MechSetup(m, arg, "pinned")
+ThrMechTaken(m, arg, variant) == IF variant = "private" THEN arg ELSE MechSetup(m, arg, "pinned").rulefor   \* rule in hand after configure
+ThrMechUsed(m, taken, variant) == IF variant = "late" THEN m.rulefor ELSE taken
 
 \* tabulated data: d = [n, err, finite, val : BOOLEAN (result = sum W_i * QInterp(table, x_i), to
 \* rounding), tab : rational table, exact : rational|QOff (the result projected onto the exact
